@@ -146,9 +146,13 @@ func readDuration(source []byte) (val CqlDuration, wasNull bool, err error) {
 				if err == nil {
 					read := rm + rd + rn
 					if length == read {
-						val.Months = int32(months)
-						val.Days = int32(days)
-						val.Nanos = time.Duration(nanos)
+						if val.Months, err = int64ToInt32(months); err != nil {
+							err = fmt.Errorf("cannot read duration months: %w", err)
+						} else if val.Days, err = int64ToInt32(days); err != nil {
+							err = fmt.Errorf("cannot read duration days: %w", err)
+						} else {
+							val.Nanos = time.Duration(nanos)
+						}
 					} else {
 						err = errBytesRemaining(length, length-read)
 					}
